@@ -103,6 +103,11 @@ REWRITES = {
     "change_text_len": ("re", r"\bchange\.text\.len\(\)", r"string_len(&change.text)", "String::len (byte length) — shim with the std call"),
     "change_range_len": ("re", r"\bchange\.range\.len\(\)", r"range_len(&change.range)", "ExactSizeIterator::len for Range<usize> has no vstd spec"),
     "relex_opaque": ("re", r"(?s)let reanalysis_text = .*?let new_tokens: Vec<_> = iterator\(.*?\.collect\(\);", r"let new_tokens: Vec<Token> = relex(new_text, reanalysis_start, &reusable_tokens);", "R16: the nom iterator that re-lexes the affected text (`&new_text[reanalysis_start..]`, `Span::new`, `iterator(..).map(shift).take_while(!reusable.contains).collect()`) is replaced by a call of an unspecified function; dropped: the slicing panic if reanalysis_start is not a character boundary, and everything about the re-lexed tokens"),
+    "drop_crate_path": ("re", r"\bcrate::tokens::Token\b", "Token", "single file: the module path of `Token` is dropped"),
+    "tokens_slice2": ("re", r"&doc\.tokens\[([\w\.]+\(\))\]\[([\w\.]+\(\))\]", r"slice_range(slice_range(&doc.tokens, \1), \2)", "&v[r] (Index<Range<usize>>) -> shim with the std indexing, panics unless r.start <= r.end <= len"),
+    "tokens_slice": ("re", r"&doc\.tokens\[([\w\.]+\(\))\]", r"slice_range(&doc.tokens, \1)", "&v[r] (Index<Range<usize>>) -> shim with the std indexing, panics unless r.start <= r.end <= len"),
+    "ident_eq_int": ("re", r"&ident\.value == \"int\"", r'string_eq_str(&ident.value, "int")', "String == &str (PartialEq<&str> for String) has no vstd spec"),
+    "pub_fields": ("re", r"(?m)^(\s+)(\w+): ", r"\1pub \2: ", "R2 for the private fields of a struct: single file, and Verus lets specifications read only public fields"),
     "skip_while_collect": ("chain_fmc2", "skip_while", "skip_while_collect", "xs.into_iter().skip_while(p).collect() -> shim with the same std body (R8): the suffix starting at the first element that does not satisfy p"),
     "array_concat4": ("re", r"\[unaffected_head, new_tokens, unaffected_tail, vec!\[eof\]\]\.concat\(\)", "concat4(unaffected_head, new_tokens, unaffected_tail, eof)", "[a, b, c, vec![d]].concat() -> shim with the same std body: the four parts in order"),
     "find_map_first": ("chain_fm", "find_map", "find_map_first", "xs.iter().find_map(f) -> shim with the same std body (R8): the first Some result in order"),
@@ -466,6 +471,8 @@ def parse_seg(seg):
         return ("loopbody", seg[len("loopbody "):].strip())
     if seg.startswith("tailfrom "):
         return ("tailfrom", seg[len("tailfrom "):].strip())
+    if seg.startswith("iflet "):
+        return ("iflet", seg[len("iflet "):].strip())
     if seg.startswith("letblock "):
         return ("letblock", seg[len("letblock "):].strip())
     if seg.startswith("derive "):
@@ -522,6 +529,27 @@ def resolve(file, segs):
                 raise LostAnchor(f"{file} :: tailfrom {name} resolves {len(found)} times")
             r = Resolved()
             r.src, r.toks, r.closure = src, toks, (found[0], found[0] + 1, found[0], hi - 1, False)
+            r.chain = chain
+            r.kind = "closure"
+            return r
+        if kind == "iflet":
+            # `if let Some(NAME) = <expr> { BODY } REST…` at statement level of the fn body: what runs once NAME is bound, i.e. the block followed by
+            # the remaining statements of the function, is lifted like a closure body (R6); the scrutinee (here: an `.await`) stays behind
+            found, x = [], lo
+            while x < hi - 4:
+                if toks[x].kind == "open":
+                    x = toks[x].mate + 1
+                    continue
+                if toks[x].text == "if" and toks[x + 1].text == "let" and toks[x + 2].text == "Some" and toks[x + 3].kind == "open" and toks[x + 4].text == name:
+                    y = toks[x + 3].mate + 1
+                    while y < hi and not (toks[y].kind == "open" and toks[y].text == "{"):
+                        y = toks[y].mate + 1 if toks[y].kind == "open" else y + 1
+                    found.append((x, y - 1, y, hi - 1, False))
+                x += 1
+            if len(found) != 1:
+                raise LostAnchor(f"{file} :: iflet {name} resolves {len(found)} times")
+            r = Resolved()
+            r.src, r.toks, r.closure = src, toks, found[0]
             r.chain = chain
             r.kind = "closure"
             return r
